@@ -198,7 +198,26 @@ class HashStepOracles(Oracles):
         return NotImplemented
 
     def opaque_field(self, it, v, i, fty):
-        return None
+        # the raw extension byte of the current / the neighbour k-mer read directly (bit tricks instead of the query methods): a concrete
+        # byte consistent with the row — the walking / arrival side carries n_cur / n_in extensions, the far side any number (oracle)
+        role = self.exts_role(v)
+        if role is None or i != 0:
+            return None
+        d = self.memo.get("dir")
+        stranded = self.memo.get("stranded")
+        if role == "cur":
+            side, n_side = d, self.choose("n_cur", self.DOMAINS["n_cur"])
+            n_far = self.choose("n_cur_far", (1, 0, 2))
+        else:
+            f = (not stranded) and bool(self.memo.get("flip", False))
+            side = xor_dir(flip(d), f)
+            n_side = self.choose("n_in", self.DOMAINS["n_in"])
+            n_far = self.choose("n_far", (1, 0, 2))
+        m = 0
+        for (sd, n) in ((side, n_side), (flip(side), n_far)):
+            for b in range(n):
+                m |= 1 << (b + (4 if sd == RIGHT else 0))
+        return Int(8, False, val=m)
 
 
 def hash_step_spec(g):
@@ -435,6 +454,23 @@ class GraphStepOracles(HashStepOracles):
             self.observe("extend", ("cur" if "cur" in tags_of(k) else None, d, frozenset(tags_of(args[1])), frozenset(tags_of(k))))
             return Opaque("K", {"next", "plain", "extdir-%s" % d})
         return HashStepOracles.on_call(self, it, fn, args, dest_ty, term, caller)
+
+    def opaque_field(self, it, v, i, fty):
+        role = self.exts_role(v)
+        if role != "next" or i != 0:
+            return HashStepOracles.opaque_field(self, it, v, i, fty)
+        # the neighbour node's raw extension byte: n_in extensions on the side the link arrives at, any number on the far side
+        l = self.memo.get("link")
+        if not l or l[0] != "some":
+            return None
+        side = l[1]
+        n_side = self.choose("n_in", self.DOMAINS["n_in"])
+        n_far = self.choose("n_far", (1, 0, 2))
+        m = 0
+        for (sd, n) in ((side, n_side), (flip(side), n_far)):
+            for b in range(n):
+                m |= 1 << (b + (4 if sd == RIGHT else 0))
+        return Int(8, False, val=m)
 
     def unknown_compare(self, it, op, a, b):
         ta, tb = tags_of(a), tags_of(b)
